@@ -15,6 +15,7 @@ from symx import arrays, core
 
 NAMES = {
     "StreamDensityBasedAL": {},
+    "StreamDensityBasedAL[window_size=1]": dict(window_size=1),      # the sliding window is full after one instance
     "CognitiveDualQueryStrategyRan": {},
     "CognitiveDualQueryStrategyRan[force_full_budget]": dict(force_full_budget=True),
     "CognitiveDualQueryStrategyFixUn": dict(classes=[0, 1]),
